@@ -112,10 +112,10 @@ theorem acts_false_kept (cfg : Cfg) (rec : Rec) (hun : UnSpec cfg rec) (hrec : U
         · cases h
         · rename_i s1 hr1
           simp only [Bool.false_and, Bool.false_eq_true, if_false] at h
-          exact ih ⟨s.env, s.aliases, s.unaliased, s1.already⟩ s' hw hr h
+          exact ih ⟨s.env, s.aliases, s.unaliased, s1.already, s1.cache⟩ s' hw hr h
         · rename_i s1 hr1
           simp only [Bool.false_and, Bool.false_eq_true, if_false] at h
-          exact ih ⟨s.env, s.aliases, s.unaliased, s1.already⟩ s' hw hr h
+          exact ih ⟨s.env, s.aliases, s.unaliased, s1.already, s1.cache⟩ s' hw hr h
     · have hnd : ∀ n o j v x t kl, a ≠ .dep n o j v x t kl := fun n o j v x t kl e => hdep ⟨n, o, j, v, x, t, kl, e⟩
       rw [acts_cons_nondep rec cfg false depth noRec vro d a rest s hnd] at h
       obtain ⟨hs1, hrec1, _, _⟩ := apply_false_spec d.prod a s
@@ -144,7 +144,7 @@ theorem setup_false_kept (cfg : Cfg) : ∀ fuel, UnKept cfg (setup cfg fuel) := 
         ⟨fun _ _ h => h, fun _ _ h => h, fun n x h => (aget_aunset_some _ _ _ _ h).1,
          fun n v h => (aget_aunset_some _ _ _ _ h).1⟩
       have := acts_false_kept cfg (setup cfg k) (setup_false_spec cfg k) ih depth noRec vro d (d.actions cfg.exact)
-        ⟨{ s.env with dirs := aunset s.env.dirs d.name, recs := aunset s.env.recs d.name }, s.aliases, s.unaliased, s.already⟩
+        ⟨{ s.env with dirs := aunset s.env.dirs d.name, recs := aunset s.env.recs d.name }, s.aliases, s.unaliased, s.already, s.cache⟩
         s' (hw.of_sub hs0) (aget_aunset_same _ _) h
       intro var p rel hm
       exact this var p rel hm
@@ -243,12 +243,12 @@ theorem acts_true_present (cfg : Cfg) (rank : Name → Nat) (rec : Rec) (hrec : 
           have h1 : AlreadyOK cfg.db s1.already := hrec.already _ _ _ _ _ _ _ _ _ ha (by rw [hr1]; rfl)
           split at h
           · cases h
-          · exact tail ⟨s.env, s.aliases, s.unaliased, s1.already⟩ h1 hw hn hr hp (fun _ _ h => h) h
+          · exact tail ⟨s.env, s.aliases, s.unaliased, s1.already, s1.cache⟩ h1 hw hn hr hp (fun _ _ h => h) h
         · rename_i s1 hr1
           have h1 : AlreadyOK cfg.db s1.already := hrec.already _ _ _ _ _ _ _ _ _ ha (by rw [hr1]; rfl)
           split at h
           · cases h
-          · exact tail ⟨s.env, s.aliases, s.unaliased, s1.already⟩ h1 hw hn hr hp (fun _ _ h => h) h
+          · exact tail ⟨s.env, s.aliases, s.unaliased, s1.already, s1.cache⟩ h1 hw hn hr hp (fun _ _ h => h) h
     · have hnd : ∀ n o j v x t kl, a ≠ .dep n o j v x t kl := fun n o j v x t kl e => hdep ⟨n, o, j, v, x, t, kl, e⟩
       rw [acts_cons_nondep rec cfg true depth noRec vro d a rest s hnd] at h
       obtain ⟨hn1, hw1⟩ := apply_true_spec cfg d.prod a s (hc a (by simp)) hr hw hn
@@ -347,9 +347,12 @@ theorem setup_presSpec (cfg : Cfg) (rank : Name → Nat) (hdag : NameDag cfg.db 
       | found d reason =>
         rw [hres] at h
         obtain ⟨hc, hname⟩ := resolve_spec cfg.db cfg.path cfg.keep s.already ha n ver vexpr depth _ _ _ _ hres
+        try simp only at h
+        obtain ⟨hc, hname⟩ := pickDecl_spec cfg.db s.cache d _ hc hname
+        revert h hc hname; generalize pickDecl cfg.db s.cache d = d; intro h hc hname
         exact install_present cfg rank hdag (setup cfg k) (setup_recOK cfg rank hdag k) (setup_keepHigher cfg rank hdag k)
           (setup_false_kept cfg k) ih Y depth noRec vro d reason hc (by rw [hname]; exact hY) _ s'
-          (register_already cfg depth d reason s ha hc) (by rw [register_env]; exact hw)
+          (register_already cfg depth d reason (s.afterResolve cfg depth vro n ver vexpr) ha hc) (by rw [register_env]; exact hw)
           (by rw [register_env]; exact hn) (by rw [register_env]; exact hp) h
 
 end EupsModel.Setup
